@@ -5,6 +5,7 @@ import (
 	"encoding/binary"
 	"fmt"
 	"io"
+	"sync"
 
 	"pgregory.net/rapid"
 
@@ -75,6 +76,7 @@ func (s SchedSpec) apply(n *sim.Net) {
 // drbg is a deterministic byte stream (SHA-256 in counter mode), used where a case wants to own a
 // party's coins (e.g. to steer a nonce).
 type drbg struct {
+	mu   sync.Mutex
 	seed [32]byte
 	ctr  uint64
 	buf  []byte
@@ -83,6 +85,8 @@ type drbg struct {
 func newDRBG(seed string) *drbg { return &drbg{seed: sha256.Sum256([]byte(seed))} }
 
 func (d *drbg) Read(p []byte) (int, error) {
+	d.mu.Lock()
+	defer d.mu.Unlock()
 	for i := range p {
 		if len(d.buf) == 0 {
 			var c [8]byte
